@@ -163,15 +163,23 @@ def cli_runs(cases, outs, n):
             open(p, "w", newline="").write(c["text"])
             paths.append(p)
         trims = vlib.run_model("trim", [o["fmt"][1].encode("utf-8").decode("latin-1") for _, o in sel])
+        hung = []
         def fmt_all():
             for p in paths:
-                subprocess.run([vlib.CLI, "--engine", "external", "--external-engine-command-template", "exit 7", "--format", p],
-                               stdout=subprocess.PIPE, stderr=subprocess.PIPE, timeout=60, cwd=d)
+                try:
+                    subprocess.run([vlib.CLI, "--engine", "external", "--external-engine-command-template", "exit 7", "--format", p],
+                                   stdout=subprocess.PIPE, stderr=subprocess.PIPE, timeout=20, cwd=d)
+                except subprocess.TimeoutExpired:
+                    hung.append(p)
         fmt_all()
         first = [open(p, "rb").read() for p in paths]
         fmt_all()
         second = [open(p, "rb").read() for p in paths]
         leftovers = [f for f in os.listdir(d) if f.endswith(".temp")]
+        for p in sorted(set(hung))[:3]:
+            i = paths.index(p)
+            bad.append({"case": sel[i][0], "impl": "`sqllogictest --format` did not terminate within 20 s", "model": trims[i],
+                        "spec": "contradicts L1 (C08_final / C05): `--format` hangs on this file", "broken": "corr_C05_cli"})
         for i, (c, o) in enumerate(sel):
             want = trims[i]
             if want[0] == "ok":
